@@ -364,8 +364,14 @@ def _attach_case(ctx, model, family, helpers):
         if m[a] != a:
             continue
         solo, _ = _attach_impl(family, [helpers[a] + 100 * (i != a) + 1000 for i in range(len(helpers))])
-        opts[a].step()
-        solo[a].step()
+        try:
+            opts[a].step()
+            solo[a].step()
+        except Exception as e:  # noqa: BLE001
+            err = repr(e)[:200]
+            ctx.disagree("cache.attach.step-raised", {**case, "optimiser": a}, err, "no exception",
+                         oracle=lambda c: {"case": c, "raised": err, "what": "step of an optimiser with an attached helper raised"})
+            return
         if not common.allclose(np.asarray(opts[a].x), np.asarray(solo[a].x), rtol=1e-8):
             ctx.disagree("cache.attach.step", {**case, "optimiser": a}, np.asarray(opts[a].x).tolist(), np.asarray(solo[a].x).tolist(),
                          oracle=lambda c: {"case": c, "what": "step of an optimiser with an unshared helper differs from the same optimiser built alone"})
@@ -767,7 +773,10 @@ def _corr_mutation(ctx):
         ctx.count("mutation:probe")
         changed = [i for i, (a, b) in enumerate(zip(before, after)) if a != b]
         if err is not None:
-            raise common.Infra(f"mutation probe {name} raised {err}")
+            # the catalogue of uses is valid scico usage: an exception here is the code under test failing
+            ctx.disagree("cache.mutation.raised", case, err, "no exception",
+                         oracle=lambda c: {"probe": c["probe"], "raised": err, "what": "using objects inside other objects raised"})
+            return
         if changed:
             ctx.disagree("cache.mutation", case, f"objects {changed} changed", "unchanged",
                          oracle=lambda c: {"probe": c["probe"], "changed_objects": changed, "what": "using an object inside another mutated it"})
